@@ -31,6 +31,13 @@ def configs(tier):
             if ch <= 2:
                 for ctl in ('nocomment', 'comments=40', 'blocks=3', 'reinit=5', 'blocks=2,reinit=3'):
                     yield dict(rate=rate, ch=ch, mode='q', q=0.3, max=-1, nom=-1, min=-1, ctl=ctl)
+            # comment-list shapes the encoder must be able to hand to its own decoder: every list of <= 2 entries (thorough <= 3) over
+            # {empty string, "A=b", "=", 300-byte value, embedded NUL, NULL pointer entry, tag without '='} (round-7 seed C05r7-2: zero-length entry refused)
+            if ch == 1 and rate == rates[0]:
+                import itertools
+                for L in range(1, 4 if tier == 'thorough' else 3):
+                    for combo in itertools.product('0123456', repeat=L):
+                        yield dict(rate=rate, ch=ch, mode='q', q=0.3, max=-1, nom=-1, min=-1, ctl='cl=' + ''.join(combo))
             # managed: ABR, max-only, min-only, CBR-like, all three
             per = {8000: 16000, 11025: 20000, 16000: 28000, 22050: 36000, 32000: 48000, 44100: 64000, 48000: 64000, 96000: 96000}[rate] * (ch if ch < 3 else 3)
             for (mx, nom, mn) in ((-1, per, -1), (per, -1, -1), (-1, -1, per // 2), (per, per, per), (per * 3 // 2, per, per // 2)):
